@@ -569,3 +569,31 @@ def t_comment_end(facts, res, tier):
             res.fail(key, facts.where(fn, rem[0]), "cannot show that the text scanned after `/*` is the whole rest of the line (`%s`)" % rt)
     if sites == 0:
         raise AnchorMissing("process(): no site opening a block comment found")
+
+
+@rule("T-COMMENT-SPACE", floor=1,
+      text="a block comment separates the tokens around it like a blank: where a comment ends and more text of the same line follows, the "
+           "scanner puts white space into the accumulated line (otherwise `char/**/x` becomes `charx` and `y &/**/& z` becomes `y && z`)")
+def t_comment_space(facts, res, tier):
+    fn = facts.fn("process", "")
+    site = None
+    for blk in walk(fn["body"]):
+        if blk.get("k") != "block":
+            continue
+        stmts = blk.get("stmts", [])
+        if any(s.get("k") == "assign" and norm(s["l"]) == "in_multiline_comments" and norm(s["r"]) == "false" for s in stmts):
+            site = blk
+    if site is None:
+        raise AnchorMissing("process(): the site closing a block comment was not found")
+    res.inst("T-COMMENT-SPACE:process", True)
+    # the branch taken when text follows the comment on the same line: it sets insert_it = true
+    ok = False
+    for n in walk(site):
+        if n.get("k") == "block" and any(s.get("k") == "assign" and norm(s["l"]) == "insert_it" and norm(s["r"]) == "true" for s in n.get("stmts", [])):
+            for x in walk(n):
+                if x.get("k") == "mcall" and x["method"] in ("push", "push_str") and root_name(x["recv"]) == "uncommented_buf" and x["args"] and x["args"][0].get("k") == "lit" and str(x["args"][0].get("v")).strip() == "":
+                    ok = True
+    if not ok:
+        res.fail("T-COMMENT-SPACE:process:no-separator", facts.where(fn, site),
+                 "when a block comment ends and text follows on the same line, nothing is put between what preceded the comment and what follows it: "
+                 "`char/**/x` is handed to the parser as `charx`")
